@@ -19,14 +19,14 @@ E-seq (explicit-state BFS over request histories of the real service) with the r
 The check that the implementation's transition commutes with the model's through from_dump is
 what binds the model to the code: every transition IS an implementation execution.
 """
-import copy
 import json
+import os
 
 from vp import explore_seq, reqs
 from vp.http import R
 from vp.names import A, K, P, UNKNOWN_UUID
 from vp.props.c01 import fill
-from vp.refmodel import NotModelled, RefPlacement, UNPINNED, norm, ver
+from vp.refmodel import NotModelled, RefPlacement, UNPINNED, norm
 
 STD_TRAIT = 'HW_CPU_X86_AVX'
 T1 = 'CUSTOM_T1'
@@ -580,8 +580,8 @@ class Spec(object):
         try:
             out = model.plan(req)
         except NotModelled as e:
-            return [('c11-not-modelled:%s' % tag, 'alphabet entry %s is outside the model: %s' % (
-                tag, e))]
+            # a defect of this check, never a property violation: surfaces as a harness error
+            raise RuntimeError('alphabet entry %r is outside the model: %s' % (tag, e))
         st = resp.status
         desc = '%s %s @%s %s' % (req['method'], req['path'], req.get('mv'),
                                  json.dumps(req.get('body', req.get('raw')))[:300])
@@ -681,8 +681,25 @@ class Spec(object):
                 g('/resource_classes/' + CY, '1.2')]
         return out
 
+    def _claim(self, d):
+        """Every distinct state is probed once per exploration, by the first worker to reach it
+        (the engine's known-set is per worker; the probes cost more than the transitions)."""
+        parent = os.environ.get('VP_SHM_PARENT')
+        if not parent or not os.path.isdir(parent):
+            return True                         # replay / single process: always probe
+        dirp = os.path.join(parent, 'c11-probed')
+        try:
+            os.makedirs(dirp, exist_ok=True)
+            os.close(os.open(os.path.join(dirp, self.canon(d)),
+                             os.O_CREAT | os.O_EXCL | os.O_WRONLY))
+            return True
+        except FileExistsError:
+            return False
+
     def on_state(self, d, h, call):
         v = []
+        if not self._claim(d):
+            return v
         model = RefPlacement.from_dump(d)
         seen = {}
         for req in self.probes(d):
@@ -690,8 +707,7 @@ class Spec(object):
             try:
                 out = model.plan(req)
             except NotModelled as e:
-                v.append(('c11-not-modelled:' + name, 'probe outside the model: %s' % e))
-                continue
+                raise RuntimeError('probe %r is outside the model: %s' % (name, e))
             resp, _ = call(req)
             seen[(req['path'], req.get('mv'), req.get('query'))] = resp
             if resp.status not in out.statuses:
@@ -778,35 +794,45 @@ def _probe_name(req):
 
 
 def _drop_zero(body):
-    """Usage reports: an absent class and a class reported with 0 are the same statement."""
-    def walk(x):
-        if isinstance(x, dict):
-            y = {k: walk(val) for k, val in x.items()}
-            y = {k: val for k, val in y.items() if val != 0 or k == 'consumer_count'}
-            return {k: val for k, val in y.items()
-                    if not (isinstance(val, dict) and set(val) <= {'consumer_count'} and
-                            not val.get('consumer_count'))}
-        return x
-    return walk(body)
+    """Usage reports: an absent class and a class reported with 0 are the same statement, and
+    so are an absent consumer-type group and a group of no consumers."""
+    if not isinstance(body, dict) or not isinstance(body.get('usages'), dict):
+        return body
+    us = {}
+    for k, val in body['usages'].items():
+        if isinstance(val, dict):
+            val = {rc: a for rc, a in val.items() if a != 0 or rc == 'consumer_count'}
+            if not val.get('consumer_count') and set(val) <= {'consumer_count'}:
+                continue
+        elif val == 0:
+            continue
+        us[k] = val
+    return dict(body, usages=us)
 
 
 def run(ctx):
     if ctx.quick:
-        depth, deep_depth = 2, 3
+        depth, deep_depth = 2, None
         ctx.budget = ctx.budget or 150
+        share = 1.0
     else:
         depth, deep_depth = 3, 4
         ctx.budget = ctx.budget or 1150
+        share = 0.6
     total = ctx.budget
-    # phase 1: the full alphabet (all routes, valid + invalid, 14 versions) in every state
-    # reachable in < depth requests; phase 2: state-changing requests only, one level deeper
-    ctx.budget = total * 0.6
+    # phase 1: the full alphabet (all routes, valid + invalid, all versions) in every state
+    # reachable in < depth requests; phase 2 (thorough): state-changing requests at the latest
+    # version only, one level deeper
+    ctx.budget = total * share
     st = explore_seq.explore(ctx, 'vp.props.c11', 'Spec', ('full',), max_depth=depth)
+    t_full = ctx.elapsed()
     st2 = None
-    if not ctx.violations:
+    if deep_depth and not ctx.violations:
         ctx.budget = total
         st2 = explore_seq.explore(ctx, 'vp.props.c11', 'Spec', ('deep',), max_depth=deep_depth)
     ctx.budget = total
+    ctx.coverage['phase_wall_s'] = {'full': round(t_full, 1),
+                                    'deep': round(ctx.elapsed() - t_full, 1)}
     fill(ctx, st, 'lock-step BFS: every transition of the real service is compared with '
          'RefPlacement (documented statuses, effect on the rows, generation relations, response '
          'body) and every new state is read through every GET view at the versions on both '
